@@ -202,7 +202,24 @@ def check_script(ctx, case):
     from ref import wire
     _, scr = _lib()
     items = _decode_items(case)
-    raw = wire.script_build(items)
+    minimal = wire.script_build(items)
+    raw = minimal
+    if case.get('enc'):
+        # the same items with explicitly chosen push encodings (OP_PUSHDATA1/2/4 where a shorter form exists):
+        # a decoder must read every form the protocol defines
+        raw = b''
+        k = 0
+        for it in items:
+            if isinstance(it, int):
+                raw += bytes([it])
+                continue
+            e = case['enc'][k % len(case['enc'])]
+            k += 1
+            width = {1: 1, 2: 2, 4: 4}.get(e)
+            if width and len(it) < 256 ** width and len(it) > 0:
+                raw += bytes([{1: 0x4c, 2: 0x4d, 4: 0x4e}[e]]) + len(it).to_bytes(width, 'little') + it
+            else:
+                raw += wire.push_data(it)
     entry = case.get('entry', 'parse_bytes')
     strict = case.get('strict', True)
     expected = [it for it in items]
@@ -246,7 +263,7 @@ def check_script(ctx, case):
         ctx.disc('script.serialize.raises', 'serialize raised %r after parsing %s' % (e, raw.hex()[:200]), case,
                  kf=kf_for())
         return
-    if ser != raw:
+    if ser != raw and not (raw != minimal and ser == minimal):
         ctx.disc('script.roundtrip.bytes', '%s: serialize()=%s want %s' % (entry, ser.hex()[:200], raw.hex()[:200]),
                  case, kf=kf_for())
         return
@@ -284,6 +301,7 @@ def script_strategy(ctx):
         'items': items,
         'entry': st.sampled_from(['parse', 'parse_bytes', 'parse_hex', 'parse_bytesio', 'parse_str_hex']),
         'strict': st.booleans(),
+        'enc': st.one_of(st.none(), st.none(), st.lists(st.sampled_from([0, 1, 2, 4]), min_size=1, max_size=4)),
     })
 
 
@@ -299,6 +317,10 @@ def prop_script(ctx):
         if any(len(d) // 2 > 75 for d in datas):
             ctx.klass('script.has_pushdata')
         ctx.klass('script.entry.' + case['entry'])
+        if case.get('enc') and datas:
+            ctx.klass('script.explicit_push_encodings')
+            if 4 in case['enc']:
+                ctx.klass('script.pushdata4')
         if len(ctx.samples) < 3:
             ctx.sample(case)
         check_script(ctx, case)
